@@ -5,6 +5,7 @@ import WellenModel.Proofs.Tables
 import WellenModel.Model.Spec
 import WellenModel.Proofs.Refine
 import WellenModel.Proofs.RefineAll
+import WellenModel.Proofs.SplitFree
 /-!
 # C04 — storage is transparent: packing, compression and segmentation never alter data
 
@@ -373,5 +374,22 @@ example : ∃ d, decodeEntry .nine 6 (getLenAndMeta .nine 6).2
     (alignEntry .nine .four 6 (writeNState .four [1, 0, 2, 3, 0, 1] none)) = some (.four, d) ∧
     toSyms .four d 6 = [1, 0, 2, 3, 0, 1] :=
   C04_entry_roundtrip .nine .four [1, 0, 2, 3, 0, 1] (by decide) (by decide) (by decide)
+
+/-- **how a recording was divided among parser threads does not matter**: two divisions (`split` marks at different places, or
+none at all) of the same operations denote the same time table and the same change list for every signal — and by
+`C04_store_refines_spec_all` the store loads exactly what is denoted, for each of them -/
+theorem C04_division_irrelevant (tps : List SigType) (ops1 ops2 : List Spec.Op)
+    (hsame : Spec.dropSplits ops1 = Spec.dropSplits ops2)
+    (r1 r2 : List Nat × List (List (Nat × Spec.Value)))
+    (h1 : Spec.run tps ops1 = some r1) (h2 : Spec.run tps ops2 = some r2) : r1 = r2 := by
+  have e1 := Spec.run_dropSplits tps ops1 r1 h1
+  have e2 := Spec.run_dropSplits tps ops2 r2 h2
+  rw [hsame, e2] at e1
+  exact (Option.some.inj e1).symm
+
+/-- non-vacuity: the same four operations, undivided and divided before the second time step -/
+example : Spec.run [.bitvec 1] [.time 0, .vcd 0 [49] none, .time 5, .vcd 0 [48] none] =
+    Spec.run [.bitvec 1] [.time 0, .vcd 0 [49] none, .split, .time 5, .vcd 0 [48] none] := by decide
+
 
 end Wellen.Store
